@@ -385,6 +385,35 @@ def run (ctx):
     return None
   def reversed_of (e):
     """name of the link variable whose reverse e builds, or None"""
+    if isinstance(e, ast.Attribute) and isinstance(e.value, ast.Name):
+      # a property of the Link class that builds the reverse (Link.flipped)
+      lk_ = dmod.classes.get('Link')
+      pf_ = lk_.methods.get(e.attr) if lk_ is not None else None
+      if pf_ is not None and 'property' in pf_.decorators:
+        body = [b for b in pf_.node.body if not (isinstance(b, ast.Expr) and isinstance(b.value, ast.Constant))]
+        if len(body) == 1 and isinstance(body[0], ast.Return) and reversed_of_ctor(body[0].value, pf_.params[0]): return e.value.id
+        # by evaluation on the sample link (1, 2, 3, 4): the property yields Link(3, 4, 1, 2)
+        def prop_val (f_, depth=0):
+          gf_ = q.cfg_of(f_)
+          def hook (call, env=None):
+            if call_name(call) == 'Link':
+              try: return (True, tuple(q.eval_env2(repo, dmod, a_, env, lk_) for a_ in call.args))
+              except Exception: return (False, None)
+            return (False, None)
+          hook.wants_env = True
+          ms = []
+          if depth < 2:
+            for nm_, pf2 in lk_.methods.items():
+              if pf2 is not f_ and 'property' in pf2.decorators:
+                v2 = prop_val(pf2, depth + 1)
+                if v2 is not None: ms.append(((lambda e_, nm_=nm_: isinstance(e_, ast.Attribute) and e_.attr == nm_ and norm(e_.value) == 'self'), v2))
+          out = set()
+          for p_, e_ in q.paths_under(repo, dmod, gf_, q.Env({'self': (1, 2, 3, 4)}, ms, hook), gf_.entry, [n_ for n_ in gf_.nodes if n_.kind == 'return'], lk_, limit=10):
+            try: out.add(q.eval_env2(repo, dmod, p_[-1].ast.value, e_, lk_))
+            except Exception: out.add('?')
+          return list(out)[0] if len(out) == 1 and '?' not in out else None
+        if prop_val(pf_) == (3, 4, 1, 2): return e.value.id
+      return None
     if not isinstance(e, ast.Call): return None
     if isinstance(e.func, ast.Name) and e.func.id in nest4 and len(e.args) == 1 and isinstance(e.args[0], ast.Name):
       h = nest4[e.func.id]; hn = getattr(h, "node", h)
